@@ -7,17 +7,17 @@ def run(ctx: Ctx) -> int:
     jobs = [Job(H, "h_seed_takes_effect", timeout=ctx.pick(60, 120))]
     if ctx.quick:
         jobs.append(Job(H, "h_script", timeout=90, name="script[len=2]", env={"VERIF_C28_LEN": 2}))
-        for k in range(8):
-            jobs.append(Job(H, "h_script", timeout=120, name=f"script[len=3,first={k}]",
-                            env={"VERIF_C28_LEN": 3, "VERIF_C28_PREFIX": k, "VERIF_C28_KSET": "0,2,4,5"}))
+        for k in range(9):
+            jobs.append(Job(H, "h_script", timeout=150, name=f"script[len=3,first={k}]",
+                            env={"VERIF_C28_LEN": 3, "VERIF_C28_PREFIX": k, "VERIF_C28_KSET": "0,2,4,5,8"}))
     else:
-        for k in range(8):
-            for k2 in range(8):
+        for k in range(9):
+            for k2 in range(9):
                 jobs.append(Job(H, "h_script", timeout=900, name=f"script[len=4,first={k},{k2}]",
                                 env={"VERIF_C28_LEN": 4, "VERIF_C28_PREFIX": f"{k},{k2}"}))
     ctx.functions_encoded = ["guppylang/emulator/instance.py: _Options, EmulatorInstance._with_option, with_* (12 methods), "
                              "statevector_sim/coinflip_sim/stabilizer_sim, run, _run_instance, _iterate_shots"]
-    ctx.bounds = {"script_length": ctx.pick(3, 4), "operation_kinds": "8 (quick: ops 2 and 3 of length-3 scripts drawn from the 4 seed/simulator kinds)", "parent": "any earlier instance (symbolic index)",
+    ctx.bounds = {"script_length": ctx.pick(3, 4), "operation_kinds": "9 incl. with_simulator of a simulator object shared between configurations (quick: ops 2 and 3 of length-3 scripts drawn from the 5 seed/simulator kinds)", "parent": "any earlier instance (symbolic index)",
                   "values": "2 per operation", "base": "seeded or not (symbolic)"}
     ctx.outside_claim = ["selene's own determinism for a fixed effective configuration", "EmulatorBuilder (compilation)",
                          "user code mutating a simulator object after handing it over"]
